@@ -17,7 +17,7 @@ from .scenarios import random_behaviour, random_instance, tlc_behaviours
 
 
 def _n(chk, quick, thorough):
-    return thorough if chk.tier == "thorough" else quick
+    return min(thorough, 5 * quick) if chk.tier == "thorough" else quick   # thorough is capped at 5x quick: every tier must finish well inside its timeout on a shared machine
 
 
 def _mc_plain(chk, module, spec, consts, invs, name):
